@@ -26,14 +26,14 @@ TReset ==
     /\ phase' = "idle" /\ tries' = 0 /\ content' = NoContent
     /\ wire' = NoNonce /\ answer' = NoAnswer /\ newest' = NoNonce
     /\ sentNonces' = {} /\ polls' = 0 /\ pollUrl' = "none" /\ nreq' = 0
-    /\ acctKey' = <<>> /\ retryDue' = FALSE /\ caller' = "none" /\ bad' = {}
+    /\ acctKey' = <<>> /\ retryDue' = FALSE /\ caller' = "none" /\ prev' = NoPrev /\ bad' = {}
 
 TClientReset ==
     /\ Is("ClientReset") /\ Adv
     /\ cell' = NoNonce /\ phase' = "idle" /\ tries' = 0 /\ content' = NoContent
     /\ wire' = NoNonce /\ answer' = NoAnswer /\ newest' = NoNonce
     /\ sentNonces' = {} /\ polls' = 0 /\ pollUrl' = "none"
-    /\ UNCHANGED <<issued, consumed, nreq, acctKey>> /\ retryDue' = FALSE /\ caller' = "none" /\ bad' = {}
+    /\ UNCHANGED <<issued, consumed, nreq, acctKey>> /\ retryDue' = FALSE /\ caller' = "none" /\ prev' = NoPrev /\ bad' = {}
 
 TBegin == Is("PostBegin") /\ Adv /\ BeginAs(Ev.poll, Ev.url, Ev.who)
 TOver == Is("AttemptOver") /\ Adv /\ AttemptOver(Ev.who)
